@@ -141,9 +141,8 @@ fn fft_groups(tier: Tier) -> Vec<Vec<Cfg>> {
                     g.push(Cfg::fft(kind, a, b, chunk, 1).with_channels(if chunk % 8 == 0 { 2 } else { 1 }));
                 } else {
                     for sub in 1..=maxsub {
-                        if chunk / sub == 0 {
-                            continue;
-                        }
+                        // chunk < sub_chunks is kept: the sub-chunk size truncates to 0 there and the
+                        // smallest FFT has to be used (KF-Y)
                         g.push(Cfg::fft(kind, a, b, chunk, sub).with_channels(if chunk % 8 == 0 { 2 } else { 1 }));
                     }
                 }
@@ -234,6 +233,19 @@ pub fn items(tier: Tier, id: &str) -> Vec<Item> {
             cfgs.push(Cfg::fast(kind, 0.5, 1.25, 4096, Degree::Linear));
         }
         for c in cfgs.chunks(2) {
+            out.push(Item { cfgs: c.to_vec(), f32_too: false });
+        }
+    }
+    if id == "C03" || id == "C04" {
+        // whole-file chunks above 2^24 frames, where frame counts no longer fit an f32 (KF-X)
+        let cfgs = vec![
+            Cfg::fft(Kind::XI, 44100, 48000, 16_777_845, 16305),
+            Cfg::fft(Kind::XI, 44100, 48000, 16_777_845, 3),
+            Cfg::fft(Kind::XO, 44100, 48000, 20_000_001, 1000),
+            Cfg::fft(Kind::XO, 48000, 44100, 16_777_217, 7),
+            Cfg::fft(Kind::XX, 44100, 48000, 16_777_845, 1),
+        ];
+        for c in cfgs.chunks(1) {
             out.push(Item { cfgs: c.to_vec(), f32_too: false });
         }
     }
@@ -458,6 +470,11 @@ pub fn spec_for(id: &str, tier: Tier, cfg: &Cfg) -> Spec {
     } else {
         [128, 32, 12, 8]
     };
+    // chunks above 2^24 frames: every call moves hundreds of megabytes, so three default calls and
+    // (thorough) one deviation
+    let huge = cfg.chunk >= (1 << 24);
+    let horizon = if huge { [3, 1, 1, 1] } else { horizon };
+    let bound = if huge { if q { 0 } else { 1 } } else { bound };
     let light = cfg.kind.is_async() && (cfg.max_rel == 3.0 || cfg.max_rel == 5.0);
     let horizon = if light { [4, 2, 2, 2] } else { horizon };
     let bound = if light { 1 } else { bound };
@@ -653,6 +670,22 @@ impl Check for CtrlCheck {
         let mut acc = Value::Null;
         for cfg in &item.cfgs {
             if self.id == "C03" {
+                // a constructor that panics on a configuration of the lattice (all of them are
+                // valid: positive rates and ratios, chunk >= 1) is a finding, not a harness error
+                if let Err(e) = crate::run::Runner::<f64>::new(cfg, Signal::Noise) {
+                    if e.contains("constructor panicked") {
+                        merge(&mut acc, json!({
+                            "label": format!("{} f64", cfg.short()), "states": 1, "transitions": 1,
+                            "outcomes": ["ctor-panic"],
+                            "found": [{"prop": "C03", "sig": format!("panic-in-constructor:{}", crate::run::classify(&e)), "detail": format!("valid configuration: {}", e),
+                                       "cfg": cfg.to_json(), "history": "", "sample_type": "f64"}],
+                            "samples": [],
+                        }));
+                        continue;
+                    }
+                }
+            }
+            if self.id == "C03" && cfg.chunk < (1 << 24) {
                 // standing audit of the assumption behind merging on control fingerprints
                 data_independence_audit(cfg, journal)?;
             }
@@ -687,7 +720,7 @@ impl Check for CtrlCheck {
                 }
                 continue;
             }
-            if self.id == "C03" && (cfg.kind.is_fft() || cfg.chunk == 8) {
+            if self.id == "C03" && (cfg.kind.is_fft() || cfg.chunk == 8) && cfg.chunk < (1 << 24) {
                 // the same exploration on a signal with NaN samples in the last channel: sample
                 // values are inputs too, and a non-finite one must not make any call panic
                 let mut sp = spec.clone();
@@ -744,6 +777,12 @@ impl Check for CtrlCheck {
         let spec = spec_for(self.id, Tier::Quick, &cfg);
         let mut log = String::new();
         let mut bad = false;
+        if self.id == "C03" && sig.starts_with("panic-in-constructor") {
+            return Ok(match crate::run::Runner::<f64>::new(&cfg, Signal::Noise) {
+                Err(e) if e.contains("constructor panicked") => (true, format!("    VIOLATES C03 [{}] {}\n", sig, e)),
+                _ => (false, "  constructor returns normally\n".to_string()),
+            });
+        }
         let make = || -> Result<Box<dyn crate::explore::Sys>, String> {
             Ok(if self.id == "C17" && ty == "twin-quiet" {
                 Box::new(crate::twin::TwinSys::quiet(&cfg)?)
